@@ -98,8 +98,14 @@ class C20(Check):
             step = rng.choice([60, 120])
             kA = rng.randrange(2, 5)
             frac = rng.choice([rng.uniform(0.05, 0.33), rng.uniform(0.30, 0.40), rng.uniform(0.355, 0.399), rng.uniform(0.40, 0.47)])
+            retry = rng.random() < 0.25
+            if retry:
+                # first pair unusable (more than a period apart: "not from a single pass"; for Gauss also a wide transfer angle it reports as
+                # divergence): the attempt at site B fails, B's observation is stored, and the attempt at a third site C has two stored observations
+                frac = rng.uniform(0.25, 0.45) if method == "lambert_gauss" and rng.random() < 0.6 else rng.uniform(1.02, 1.25)
             kB = kA + max(1, round(frac * P / step))
-            nsteps = kB + 1
+            kC = kB + max(1, round(rng.uniform(0.05, 0.39) * P / step)) if retry else None
+            nsteps = (kC if retry else kB) + 1
             k_imp = rng.randrange(0, kA)
             dvv = np.array([rng.gauss(0, 1) for _ in range(3)])
             dvv = dvv / np.linalg.norm(dvv) * 10 ** rng.uniform(-3, -2)
@@ -114,6 +120,10 @@ class C20(Check):
             blk = lambda: gen.sensor_block("adv_radar", coarse=False, field_of_view={"fov_shape": "conic", "cone_angle": 60.0},  # noqa: E731
                                            elevation_range=[rng.choice([75.0, 80.0]), 89.9999])
             sensors = [gen.ground_sensor(90001, latA, lonA, 0.1, blk()), gen.ground_sensor(90002, latB, lonB, 0.1, blk())]
+            if retry:
+                xC = kepler.propagate(x, kC * step - t_imp)
+                latC, lonC = subpoint_site(xC, start + dt.timedelta(seconds=kC * step), rng.uniform(0.3, 2.0))
+                sensors.append(gen.ground_sensor(90003, latC, lonC, 0.1, blk()))
             tgt = gen.eci_target(10001, x0[:3], x0[3:])
             ev = [{"scope": "agent_propagation", "scope_instance_id": 10001, "event_type": "impulse", "start_time": fmt_ts(start + dt.timedelta(seconds=t_imp)),
                    "thrust_vector": dvv.tolist(), "thrust_frame": "eci", "planned": False}]
@@ -136,7 +146,7 @@ class C20(Check):
         cfg = gen.base_config(start, step, nsteps, [gen.engine_block(1, sensors, [tgt], "AllVisibleDecision" if all(s["sensor"]["type"] == "adv_radar" for s in sensors) else "MunkresDecision")],
                               model="two_body", seed=rng.randrange(1, 2**31), estimation=est, events=ev, out_step=step, background=False)
         return {"config": cfg, "plan": [{"seconds": nsteps * step}], "schedule": {"name": "seeded", "seed": rng.randrange(2**31)}, "job_seed": rng.randrange(2**31), "noise": "off",
-                "geometry": "leo-two-sites" if leo else "geo-one-site"}
+                "geometry": ("leo-three-sites" if len(sensors) == 3 else "leo-two-sites") if leo else "geo-one-site"}
 
     def sample_view(self, case):
         c = case["config"]
@@ -183,6 +193,8 @@ class C20(Check):
                 if not prev:
                     continue
                 k1 = prev[-1]
+                if len(prev) > 1:
+                    cnt["iod_attempts_with_several_stored_observations"] = cnt.get("iod_attempts_with_several_stored_observations", 0) + 1
                 x2 = truth[k2]
                 P = kepler.period(x2)
                 r_, v_ = x2[:3], x2[3:]
